@@ -86,6 +86,11 @@ def handle (line : String) : String :=
       | some cs => "ok " ++ String.ofList cs
       | none => "unmodelled")
     | none => "bad-op"
+  | ["prints", cps] =>
+    let parts := if cps == "-" then [] else cps.splitOn ","
+    (match parts.mapM String.toNat? with
+     | some s => "ok " ++ toHex (printStringInit s)
+     | none => "bad-op")
   | ["print", proto, "n"] =>
     (match printInit proto .null with
       | some cs => "ok " ++ String.ofList cs
